@@ -777,6 +777,12 @@ def demux_drop_native_replay(v):
         L.append('    let mut control = Control::new(); control.insert(iph);')
         L.append('    let r = std::panic::catch_unwind(std::panic::AssertUnwindSafe(|| crate::Protocol::demux(&*udp, Message::new(raw.clone()), Arc::new(Dummy), control, machine.clone())));')
         L.append('    let wellformed = raw.len() >= 8 && (((raw[4] as usize) << 8) | raw[5] as usize) == raw.len() && raw[6] == 0 && raw[7] == 0;')
+    elif layer == 'dhcp-client':
+        L.append('    let app = crate::protocols::dhcp::dhcp_client::DhcpClient::new(Ipv4Address::from(0x0a000001u32)); let control = Control::new();')
+        L.append('    let r = std::panic::catch_unwind(std::panic::AssertUnwindSafe(|| crate::Protocol::demux(&app, Message::new(raw.clone()), Arc::new(Dummy), control, machine.clone())));')
+        L.append('    let wellformed = false;')
+    elif layer == 'dhcp-server':
+        return dhcp_server_native_replay(raw)
     else:
         L.append('    let ip = machine.protocol::<Ipv4>().unwrap(); let control = Control::new();')
         L.append('    let r = std::panic::catch_unwind(std::panic::AssertUnwindSafe(|| crate::Protocol::demux(&*ip, Message::new(raw.clone()), Arc::new(Dummy), control, machine.clone())));')
@@ -792,13 +798,42 @@ def demux_drop_native_replay(v):
     return ('AGREE' not in lines[0]), lines[0]
 
 
+DHCP_SERVER_REPLAY = r"""
+use super::*;
+use elvis_core::{Control, Machine, Message, Protocol, Session, protocol::DemuxError, session::SendError, protocols::ipv4::Ipv4Address};
+use crate::ip_generator::IpRange;
+use std::sync::Arc;
+struct Dummy;
+impl Session for Dummy {
+    fn send(&self, _m: Message, _machine: Arc<Machine>) -> Result<(), SendError> { Ok(()) }
+}
+"""
+
+
+def dhcp_server_native_replay(raw):
+    from mirx import native
+    L = ['#[test]\nfn mirx_replay_0() {', '    println!("\\nREPLAY-BEGIN mirx_replay_0");',
+         '    let machine = Arc::new(Machine::new());',
+         f'    let raw: Vec<u8> = vec!{raw};',
+         '    let app = DhcpServer::new(Ipv4Address::from(0x0a000001u32), IpRange::new(Ipv4Address::from(0x0a000002u32), Ipv4Address::from(0x0a0000feu32)));',
+         '    let r = std::panic::catch_unwind(std::panic::AssertUnwindSafe(|| Protocol::demux(&app, Message::new(raw.clone()), Arc::new(Dummy), Control::new(), machine.clone())));',
+         '    let res = match r { Err(_) => "demux panicked".to_string(), Ok(Ok(())) => "frame that cannot decode accepted".to_string(), Ok(Err(_)) => "AGREE".to_string() };',
+         '    println!("OP 0 RESULT {}", res);', '}']
+    out, rc = native.run_shim_tests(DHCP_SERVER_REPLAY + '\n'.join(L), module='applications/dhcp_server.rs', test_filter='mirx_replay_0',
+                                    extra_modules=['ip_generator.rs'])
+    lines = native.op_lines(out)
+    if not lines:
+        return False, 'native replay did not run: ' + out[-600:]
+    return ('AGREE' not in lines[0]), lines[0]
+
+
 def demux_drop_part(ctx):
     from mirx import udpspec
     return generic_part(
         ctx, 'drop-at-layer', udpspec.malformed_units(ctx.tier), udpspec.worker,
         unit_name=lambda u: f'{u["layer"]} demux on {u["nbytes"]} arbitrary bytes',
-        unit_desc='real Udp::demux / Ipv4::demux MIR with the real header decoders and the real Message on arbitrary symbolic bytes; machine, Control, DashMap and applications modelled',
+        unit_desc='real Udp::demux / Ipv4::demux / DhcpClient::demux / DhcpServer::demux MIR with the real header decoders and the real Message on arbitrary symbolic bytes; machine, Control, DashMap and applications modelled',
         replay_fn=demux_drop_native_replay,
-        bounds='UDP layer: 0/7/8/10 (thorough 0,1,4,7,8,9,12) arbitrary bytes with one wildcard binding on a symbolic port; IPv4 layer: 0/19/20/22 (thorough up to 24) arbitrary bytes, no binding',
-        outside='TCP and ARP demux (Tcp::demux spawns sessions, Arp::demux replies through Pci: async environment); "the simulation keeps running" (runtime)',
+        bounds='UDP layer: 0/7/8/10 (thorough 0,1,4,7,8,9,12) arbitrary bytes with one wildcard binding on a symbolic port; IPv4 layer: 0/19/20/22 (thorough up to 24) arbitrary bytes, no binding; DHCP client and server: 0/31 (thorough 0,1,16,30,31) arbitrary bytes - every such payload is shorter than the shortest DHCP message of this codec (32 bytes)',
+        outside='DHCP payloads of 32 bytes or more (they can decode; the handlers then need RwLock, String and the session send path); TCP and ARP demux (Tcp::demux spawns sessions, Arp::demux replies through Pci: async environment); "the simulation keeps running" (runtime)',
         assumptions=['environment as in the C04 part (Machine lookup, Control, DashMap, recording applications modelled)'])
